@@ -2843,3 +2843,26 @@ pub(crate) fn h_write_with_banner() {
     }
     vrt_cover(true, "write_with_banner_end");
 }
+
+const EVERY_ELEMENT_X2: &str = include_str!("verif_every_element_x2.txt");
+
+/// thorough tier: every repeatable element of the grammar twice (lists with two entries on every level, ~2400 lines)
+pub(crate) fn h_every_element_x2() {
+    vrt_cover(!crate::verif_fp::VERIF_FP_STUB, "generated document and fingerprint module are in place");
+    match load_from_string(EVERY_ELEMENT_X2, None, true) {
+        Ok((file, log)) => {
+            vrt_soft_check(log.is_empty(), "C01 the doubled every-element document loads in strict mode without any diagnostic");
+            let out1 = file.write_to_string();
+            vrt_soft_check(out1.trim() == EVERY_ELEMENT_X2.trim(), "C05 the doubled every-element document is reproduced byte for byte");
+            match load_from_string(&out1, None, true) {
+                Ok((file2, _)) => {
+                    vrt_soft_check(file2 == file, "C01 load(write(M)) == M on the doubled every-element document");
+                    vrt_soft_check(crate::verif_fp::fingerprint(&file2) == crate::verif_fp::fingerprint(&file), "C01 every data field of the reloaded doubled every-element model is equal");
+                    vrt_soft_check(file2.write_to_string() == out1, "C01 the second write of the doubled every-element document is identical to the first");
+                }
+                Err(_) => vrt_soft_check(false, "C01 the written doubled every-element document loads again"),
+            }
+        }
+        Err(_) => vrt_soft_check(false, "C01 the doubled every-element document loads in strict mode"),
+    }
+}
